@@ -165,6 +165,29 @@ def helping_or_failed(tokens):
     return hit
 
 
+def stress_oracle(script, impl):
+    """real-parallel stress line: conditions on the returned values that every linearizable FIFO satisfies"""
+    f = dict(re.findall(r"(\w+)=(-?\d+)", impl.split(" first: ")[0]))
+    first = impl.partition(" first: ")[2]
+    mode = re.search(r"mode=(\w+)", impl).group(1)
+    g = lambda k: int(f.get(k, 0))
+    where = "%s [%s]" % (script, first)
+    if g("panics"):
+        return ("crash", "an operation panicked in the real-parallel stress run " + where)
+    if g("unknown"):
+        return ("invented-value", "a Pop returned a value that was never pushed: " + where)
+    if g("dup"):
+        return ("duplicated-value", "a value left the queue twice: " + where)
+    if g("order") or g("drainorder"):
+        return ("fifo-order", "two values of one producer left the queue in the wrong order: " + where)
+    if g("pushes") != g("popped") + g("drained"):
+        return ("lost-value", "%d Pushes returned but only %d values were popped and %d found by the final drain: %s"
+                % (g("pushes"), g("popped"), g("drained"), where))
+    if mode == "pairs" and g("nil"):
+        return ("empty-on-nonempty", "Pop reported empty although the queue cannot have been empty: " + where)
+    return None
+
+
 class C01(Spec):
     id = "C01"
     anchors = ["loom.Queue.Push", "loom.Queue.Pop", "loom.queueLoad", "loom.queueCas", "loom.NewQueue"]
@@ -180,7 +203,8 @@ class C01(Spec):
             "schedules of larger shapes + LONG-STALL schedules (one operation suspended before each of its shared accesses "
             "in turn while the other threads complete 40-260 operations, then resumed; histories > 20 ops are judged by "
             "the cheap conditions: every popped value pushed exactly once, per-producer FIFO, final drain accounts for "
-            "everything); compared per step: thread, load/CAS, address class (head|tail|n<k>.next), loaded "
+            "everything) + REAL-PARALLEL stress lines (4/16/64 goroutines on all Ps, no hooks; ORACLE ONLY, the model is "
+            "not consulted because the interleaving is not observable; counted separately as stress_lines); compared per step: thread, load/CAS, address class (head|tail|n<k>.next), loaded "
             "node / CAS outcome, return values, final list, final API pops. distinct by script line; non-trivial = the "
             "run contains a failed CAS or a helping CAS")
     trusted_base = ["controlled scheduler harness/csched + verifYield hooks in loom/queue.go (build tag verif): one hook per "
@@ -190,6 +214,8 @@ class C01(Spec):
                    "garbage collection: a node's address is not reused while a thread still holds it (no ABA)"]
 
     def compare(self, impl, model):
+        if impl.startswith("stress "):      # real-parallel stress: oracle only, the model is not consulted
+            return model.startswith("stress")
         parts = model.split(" || ")
         if parts[0] != impl:
             return False
@@ -198,6 +224,8 @@ class C01(Spec):
     def oracle(self, script, impl):
         if impl in ("bad-line", "bad-solo") or " | solo " in impl:
             return None
+        if impl.startswith("stress "):
+            return stress_oracle(script, impl)
         if impl.startswith("panic") or impl.startswith("<"):
             return ("panic", "the harness/real code panicked or died: " + impl[:200])
         evs, flags = parse_history(impl)
@@ -221,6 +249,8 @@ class C01(Spec):
                                                           "(transition coverage of the model's state graph not exercised)"})
 
     def nontrivial(self, script, impl):
+        if impl.startswith("stress "):
+            return True
         return helping_or_failed(impl.partition(" | ")[0].split())
 
 
